@@ -101,7 +101,7 @@ def c03_known(case, o, issue):
     """recognise the recorded C03 findings (all about return edges) on the input"""
     if not issue["kind"].startswith("return"):
         return None
-    text = case["text"]
+    text = emodify.flat_of(case)
     label_func = {y["name"]: d.get("func") for d in text if d["kind"] == "code" for y in d["syms"]}
     # (1) a patch containing a return is inserted into a function: its return edges are copied from
     #     the function's other returns as they are at that moment (none: a proxy; stale when the
